@@ -163,4 +163,34 @@ theorem cancelOutput_fans_out (allIds : List Nat) (s : BSt) (h : s.out = none) :
   simp [cancelOutput, h]
   intro i hi; exact Or.inr hi
 
+/-! keys of the input dict: repeated inputs collapse -/
+
+theorem keysOf_aux (args acc : List Nat) (hacc : acc.Nodup) :
+    (args.foldl (fun acc i => if i ∈ acc then acc else acc ++ [i]) acc).Nodup ∧
+    ∀ i, i ∈ args.foldl (fun acc i => if i ∈ acc then acc else acc ++ [i]) acc ↔ i ∈ acc ∨ i ∈ args := by
+  induction args generalizing acc with
+  | nil => simp [hacc]
+  | cons a as ih =>
+    simp only [List.foldl_cons]
+    by_cases h : a ∈ acc
+    · simp only [h, if_true]
+      refine ⟨(ih acc hacc).1, fun i => ?_⟩
+      rw [(ih acc hacc).2 i]; simp only [List.mem_cons]
+      constructor
+      · rintro (h1 | h1); exact Or.inl h1; exact Or.inr (Or.inr h1)
+      · rintro (h1 | h1 | h1); exact Or.inl h1; exact Or.inl (h1 ▸ h); exact Or.inr h1
+    · simp only [h, if_false]
+      have hn : (acc ++ [a]).Nodup := by
+        rw [List.nodup_append]; refine ⟨hacc, by simp, ?_⟩
+        intro x hx y hy; simp at hy; subst hy; intro hxy; exact h (hxy ▸ hx)
+      refine ⟨(ih _ hn).1, fun i => ?_⟩
+      rw [(ih _ hn).2 i]; simp only [List.mem_append, List.mem_cons, List.not_mem_nil, or_false]
+      constructor
+      · rintro ((h1 | h1) | h1); exact Or.inl h1; exact Or.inr (Or.inl h1); exact Or.inr (Or.inr h1)
+      · rintro (h1 | h1 | h1); exact Or.inl (Or.inl h1); exact Or.inl (Or.inr h1); exact Or.inr h1
+
+theorem keysOf_nodup (args : List Nat) : (keysOf args).Nodup := (keysOf_aux args [] List.nodup_nil).1
+theorem mem_keysOf (args : List Nat) (i : Nat) : i ∈ keysOf args ↔ i ∈ args := by
+  rw [keysOf, (keysOf_aux args [] List.nodup_nil).2 i]; simp
+
 end MoreExec.BoolOp
